@@ -743,5 +743,6 @@ Example blocks_example :
 </div>
 ").
 Proof. split; [|vm_compute; split; reflexivity].
-  vm_compute. repeat constructor; first [exact I | left; reflexivity | right; left; reflexivity | right; right; left; reflexivity | right; right; right; left; split; reflexivity
-    | right; right; right; right; left; reflexivity | right; right; right; right; right; reflexivity]. Qed.
+  vm_compute.
+  repeat (apply Forall_cons; [first [exact I | left; reflexivity | right; left; reflexivity | right; right; left; reflexivity | right; right; right; left; split; reflexivity
+    | right; right; right; right; left; reflexivity | right; right; right; right; right; reflexivity]|]). apply Forall_nil. Qed.
